@@ -1,10 +1,11 @@
 \* non-vacuity: dial_addr without port falling back to the scheme default although the URL names a port (D12)
 SPECIFICATION Spec
 CONSTANTS
-  Schemes = {"udp", "tcp", "tcp+pipeline", "tls", "tls+pipeline", "https", "h3", "quic"}
-  Ports = {1, 53, 443, 853, 5353, 65535}
+  Schemes = {"udp", "tcp", "tcp+pipeline", "tls", "tls+pipeline", "https", "h3", "quic", "doq"}
+  Ports = {1, 53, 443, 853, 65535, 65589, 70000}
   TrimCut = 1
   DialPortRule = "default"
+  PortCheck = TRUE
   Export = FALSE
 INVARIANTS C18Inv
 CHECK_DEADLOCK FALSE
